@@ -236,4 +236,4 @@ pub fn cells(tier: Tier) -> Vec<CellPlan> {
     v
 }
 
-pub const RULE: &str = "all timings of the pre-spawn mapping relative to the spawn (same frame, earlier frame of the tick window, ahead of the marker, ahead of visibility), extra structural and mutation traffic on the same and other entities, client-side despawn of the pre-spawned entity before the mapping arrives, a second client without mapping, x reliable-channel delays with <= d deviations; after every client frame: one client entity per server entity, adoption of the pre-spawned entity, fresh entity otherwise; non-trivial = at least one structural operation";
+pub const RULE: &str = "all timings of the pre-spawn mapping relative to the spawn (same frame, earlier frame of the tick window, ahead of the marker, ahead of visibility), extra structural and mutation traffic on the same and other entities, client-side despawn of the pre-spawned entity before the mapping arrives, a pre-spawned entity that already carries the marker or the server entity's own id, a second client without mapping, x reliable-channel delays with <= d deviations; after every client frame: one client entity per server entity, adoption of the pre-spawned entity, fresh entity otherwise; after closure the despawn of a mapped server entity has taken the pre-spawned entity with it; non-trivial = at least one structural operation";
